@@ -25,3 +25,10 @@
 ; pow10_mono: base b = a, step b -> b+1
 (push) (assert (not (pow10_mono a a))) (check-sat) (pop)
 (push) (assert (<= 0 a)) (assert (<= a k)) (assert (pow10_mono a k)) (assert (unfold_pow10 (+ k 1))) (assert (pow10_pos k)) (assert (not (pow10_mono a (+ k 1)))) (check-sat) (pop)
+; natval_pad: base k = 0, step k -> k+1
+(declare-const xl Int) (declare-const p (Array Int Int))
+(push) (assert (unfold_natval p 0 0)) (assert (unfold_natval x ox 0)) (assert (unfold_scaled (natval x ox xl) 0)) (assert (not (natval_pad x ox xl p 0))) (check-sat) (pop)
+(push) (assert (>= k 0)) (assert (>= xl 0)) (assert (ispad x ox xl p)) (assert (natval_pad x ox xl p k))
+ (assert (unfold_natval p 0 (+ k 1))) (assert (unfold_natval x ox (+ k 1)))
+ (assert (unfold_scaled (natval x ox xl) (- (+ k 1) xl))) (assert (unfold_scaled (natval x ox xl) (- k xl)))
+ (assert (not (natval_pad x ox xl p (+ k 1)))) (check-sat) (pop)
